@@ -58,7 +58,7 @@ def lean_term_expr(name: str, c: dict) -> str | None:
     if name == "flatten":
         return f"{P}flatten.term {r} {li(c['a'])} {li(c['b'])}"
     if name == "unflatten":
-        return f"{P}unflatten.term {r} {li(c['dim'])} {lints(c['sizes'])}"
+        return f"{P}unflatten.term {lshape(c['shape'])} {li(c['dim'])} {lints(c['sizes'])}"
     if name == "view":
         return f"{P}view.term {lints(c['size'])}"
     if name == "reshape":
@@ -82,15 +82,20 @@ def lean_term_expr(name: str, c: dict) -> str | None:
     if name == "slice":
         return f"{P}slice.term {li(c['dim'])} {lopt(c['start'])} {lopt(c['end'])} {lopt(c['step'])}"
     if name == "narrow":
-        return f"{P}narrow.term {lb(c.get('tensor_args'))} {li(c['dim'])} {li(c['start'])} {li(c['length'])}"
+        return f"{P}narrow.term {lshape(c['shape'])} {lb(c.get('tensor_args'))} {li(c['dim'])} {li(c['start'])} {li(c['length'])}"
     if name == "select":
         return f"{P}select.term {li(c['dim'])} {li(c['index'])}"
     if name == "index_select":
         return f"{P}index_select.term {r} {li(c['dim'])}"
-    if name == "chunk":
-        return joined(f"{P}chunk.term {c['chunks']} {li(c['dim'])}")
-    if name == "split":
-        return f"{P}split.term {li(c['size'])} {li(c['dim'])}"
+    if name in ("chunk", "split"):
+        sp = c["shape"]
+        d = c["dim"]
+        if not (-len(sp) <= d < len(sp)):
+            return None
+        dd = sp[d % len(sp)]
+        if name == "chunk":
+            return joined(f"{P}chunk.term {dd} {c['chunks']} {li(d)}")
+        return f"{P}split.term {dd} {li(c['size'])} {li(d)}"
     if name == "split_with_sizes":
         return f"{P}split_with_sizes.term {lints(c['sizes'])} {li(c['dim'])}"
     if name == "unbind":
@@ -146,6 +151,15 @@ def lean_term_expr(name: str, c: dict) -> str | None:
     if name in ("convolution", "conv2d"):
         return (f"{P}conv.term {lshape(c['shape'])} {lshape(c['w'])} {lil(c['st'])} {lil(c['pad'])} {lil(c['dil'])} "
                 f"{lb(c['tr'])} {lints(c['op'])} {c['g']}")
+    if name == "unfold":
+        return f"{P}unfold_.term {r} {li(c['dim'])} {li(c['size'])} {li(c['step'])}"
+    if name.startswith("upsample"):
+        sc = None if c["mode"] == "linear" else c["sc"]
+        return f'{P}upsample.term {lints(c["out"])} {loptl(sc)} "{c["mode"]}" "{c["ctm"]}"'
+    if name == "col2im":
+        return f"{P}col2im.term {lints(c['out'])} {lints(c['ks'])} {lints(c['dil'])} {lints(c['pad'])} {lints(c['st'])}"
+    if name == "im2col":
+        return f"{P}im2col.term {lints(c['ks'])} {lints(c['dil'])} {lints(c['pad'])} {lints(c['st'])}"
     if name == "constant_pad_nd":
         return f'{P}pad.termConst {r} {lints(c["pad"])} "1.5:FLOAT"'
     if name in ("pad", "reflection_pad1d", "reflection_pad2d", "replication_pad2d"):
